@@ -241,7 +241,11 @@ class Parser:
             self.expect(")")
             return ("ptuple", ps)
         if self.peek()[0] == "chr" and self.peek()[1].startswith("b'"):
-            return ("plit", byte_value(self.next()[1]))
+            v = byte_value(self.next()[1])
+            if self.at("..="):
+                self.next()
+                return ("prange", v, byte_value(self.next()[1]))
+            return ("plit", v)
         if self.at("-") or self.peek()[0] == "num":
             neg = False
             if self.at("-"):
@@ -471,6 +475,11 @@ class Parser:
             es = []
             while not self.at("]"):
                 es.append(self.expr())
+                if self.at(";") and len(es) == 1:
+                    self.next()
+                    n = self.expr()
+                    self.expect("]")
+                    return ("arrayrep", es[0], n)
                 if self.at(","):
                     self.next()
             self.expect("]")
@@ -1067,7 +1076,11 @@ STRUCTS.update({
 })
 STRUCTS["DataBlocks_4"] = STRUCTS["DataBlocks"]
 STRUCTS["DataBlocks_8"] = STRUCTS["DataBlocks"]
-SRC_STRUCTS.update({"Header", "DataBlocks", "Version"})
+SRC_STRUCTS.update({"Header", "DataBlocks", "Version", "TzAsciiStr", "LocalTimeTypeSrc"})
+STRUCTS.update({
+    "TzAsciiStr": {"bytes": ("bytes", ("slice", ("u8",)))},
+    "LocalTimeTypeSrc": {"ut_offset": ("utOffset", "i32"), "is_dst": ("isDst", "bool"), "time_zone_designation": ("timeZoneDesignation", ("option", ("named", "TzAsciiStr")))},
+})
 LEAN_TYPE_NAME.update({"DataBlocks_4": "TzVerif.Src.DataBlocks", "DataBlocks_8": "TzVerif.Src.DataBlocks", "TimeZone": "TzVerif.Model.TimeZone"})
 # enums without payloads that exist only in the translation
 UNIT_ENUMS = {"Version": "TzVerif.Src.Version"}
@@ -1223,6 +1236,10 @@ class Normaliser:
             return lets + [("let", st[1], st[2], init)]
         if k == "assign":
             lets, rhs = self.hoist(st[3], top=(st[2] == "="))
+            if st[1][0] == "index" and st[1][1][0] == "path" and len(st[1][1][1]) == 1 and st[2] == "=":
+                # a[i] = v  on a local array
+                l2, ix = self.hoist(st[1][2], top=False)
+                return lets + l2 + [("assign", st[1][1], "=", ("listset", st[1][1], ix, rhs))]
             return lets + [("assign", st[1], st[2], rhs)]
         if k == "while":
             return [("while", st[1], self.block(st[2]))]
@@ -1387,8 +1404,8 @@ class Fn:
         self.qname = qname
         self.owner = qname.split(".")[0] if "." in qname else None
         self.params = params
-        self.ret = self.resolve(ret)
         self.cfg = cfg
+        self.ret = self.resolve(ret)
         self.out = cfg.get("out_param")
         self.body = Normaliser(self.out).block(body)
         self.loop_no = 0
@@ -1399,7 +1416,7 @@ class Fn:
         if t is None:
             return None
         if t[0] == "named" and t[1] == "Self":
-            return ("named", self.owner)
+            return ("named", self.cfg.get("struct_override", {}).get(self.owner, self.owner))
         if t[0] in ("ref", "slice", "option"):
             return (t[0], self.resolve(t[1]))
         if t[0] == "result":
@@ -1497,6 +1514,7 @@ class Fn:
             name = e[1][-1]
             if name == "Self":
                 name = self.owner
+            name = self.cfg.get("struct_override", {}).get(name, name)
             if len(e[1]) >= 2 and (e[1][-2], name) in STRUCT_VARIANTS:
                 ctor, order = STRUCT_VARIANTS[(e[1][-2], name)]
                 vals = dict(e[2])
@@ -1546,6 +1564,17 @@ class Fn:
         if k == "swappairs":
             l, t = self.ex(e[1], env)
             return ("(Src.swapPairs %s)" % l, t)
+        if k == "arrayrep":
+            v, vt = self.ex(e[1], env)
+            n, _ = self.ex(e[2], env)
+            return ("(List.replicate (Int.toNat %s) (%s : Nat))" % (n, v), ("slice", ("u8",)))
+        if k == "listset":
+            l, t = self.ex(e[1], env)
+            i, _ = self.ex(e[2], env)
+            v, vt = self.ex(e[3], env)
+            if elem_type(t) == ("byte",) and not (vt and strip_ref(vt)[0] == "byte"):
+                v = "(Int.toNat %s)" % v
+            return ("(List.set %s (Int.toNat %s) %s)" % (l, i, v), t)
         if k == "array":
             parts = [self.ex(x, env) for x in e[1]]
             return ("[" + ", ".join(p[0] for p in parts) + "]", ("slice", parts[0][1] if parts else None))
@@ -2878,6 +2907,11 @@ CONFIG = {
         }),
         ("src/timezone/mod.rs", {
             "Transition.new": {}, "LeapSecond.new": {},
+            # the constructor of local time types as the source has it (8-byte length-prefixed buffer); the other
+            # translated functions call the model's constructor, whose meaning these two justify (SrcEqLtt.lean)
+            "TzAsciiStr.new": {"fuel": {"1": "input.len() + 1"}},
+            "LocalTimeType.new": {"struct_override": {"LocalTimeType": "LocalTimeTypeSrc"}},
+            "LocalTimeType.with_ut_offset": {"struct_override": {"LocalTimeType": "LocalTimeTypeSrc"}},
         }),
         ("src/parse/tz_string.rs", {
             "map_err": {}, "parse_time_zone_designation": {}, "parse_hhmmss": {}, "parse_signed_hhmmss": {}, "parse_offset": {},
